@@ -404,6 +404,79 @@ func scenario(x *explore.X, bin string) {
 	x.Outcome(fmt.Sprintf("%s/%s/%s", carrier, form, level))
 }
 
+// refusedAtStartUp (Engine B): configurations in which every secret-bearing value is well-formed but the
+// configuration as a whole is refused (two --credentials entries for the same key; a valid secret next to another
+// option that is invalid): what the binary prints before it exits - the start-up log up to and including the
+// fatal error line - is a start-up log too.
+func refusedAtStartUp(x *explore.X, bin string) {
+	secret := secrets[x.ChooseFree("secret", len(secrets))]
+	kind := []string{"duplicate-exact-entry", "duplicate-wildcard-port-entry", "duplicate-star-star-entry", "another-option-invalid"}[x.ChooseFree("refusal", 4)]
+	form := []string{"flag", "env"}[x.ChooseFree("form", 2)]
+	level := levels[x.ChooseFree("log-level", len(levels))]
+	if strings.ContainsAny(secret, "@ ,") {
+		x.Outcome("inadmissible") // cannot be written inside a comma-separated --credentials value
+		return
+	}
+	opts := map[string]string{"address": "127.0.0.1:" + freePort(), "log-level": level}
+	switch kind {
+	case "duplicate-exact-entry":
+		opts["credentials"] = "first:first-" + secret + "@site.test:80,second:" + secret + "@site.test:80"
+	case "duplicate-wildcard-port-entry":
+		opts["credentials"] = "first:first-" + secret + "@site.test:*,second:" + secret + "@site.test:*"
+	case "duplicate-star-star-entry":
+		opts["credentials"] = "first:first-" + secret + "@*:*,second:" + secret + "@*:*"
+	case "another-option-invalid":
+		opts["credentials"] = "second:" + secret + "@site.test:80"
+		opts["basic-auth"] = "user1:" + secret
+		opts["deny-domains"] = "(unclosed"
+	}
+	args := []string{"run"}
+	env := append(os.Environ(), "NO_COLOR=1")
+	for k, v := range opts {
+		if form == "flag" {
+			args = append(args, "--"+k+"="+v)
+		} else {
+			env = append(env, "FORWARDER_"+strings.ToUpper(strings.ReplaceAll(k, "-", "_"))+"="+v)
+		}
+	}
+	cmd := exec.Command(bin, args...)
+	cmd.Env = env
+	var out lockedBuf
+	cmd.Stdout, cmd.Stderr = &out, &out
+	if err := cmd.Start(); err != nil {
+		x.Failf("harness/start", "%v", err)
+		return
+	}
+	exited := make(chan error, 1)
+	go func() { exited <- cmd.Wait() }()
+	var werr error
+	select {
+	case werr = <-exited:
+	case <-time.After(60 * time.Second):
+		cmd.Process.Kill()
+		<-exited
+		x.Failf("harness/not-refused", "refusal=%s form=%s: the binary kept running with a configuration that must be refused: %s", kind, form, out.String())
+		return
+	}
+	what := fmt.Sprintf("refusal=%s secret=%q form=%s log-level=%s", kind, secret, form, level)
+	x.Logf("%s: exit %v", what, werr)
+	x.Check()
+	if werr == nil {
+		x.Failf("harness/not-refused", "%s: the binary exited with status 0: %s", what, out.String())
+		return
+	}
+	text := out.String()
+	for _, n := range []string{secret, url.QueryEscape(secret), url.PathEscape(secret), base64.StdEncoding.EncodeToString([]byte(secret)), base64.StdEncoding.EncodeToString([]byte("second:" + secret))} {
+		if n != "" && strings.Contains(text, n) {
+			i := strings.Index(text, n)
+			lo, hi := max(0, i-160), min(len(text), i+len(n)+60)
+			x.Failf("secret-disclosed/refused-at-start-up/"+kind, "%s: the output of the refused start contains the secret (%q): …%s…", what, n, text[lo:hi])
+			return
+		}
+	}
+	x.Outcome(kind + "/" + form)
+}
+
 type lockedBuf struct {
 	mu sync.Mutex
 	b  bytes.Buffer
@@ -426,10 +499,11 @@ func TestC19(t *testing.T) {
 		t.Fatal("VERIF_FORWARDER_BIN not set (the check driver builds cmd/forwarder from the working tree)")
 	}
 	s := explore.NewSuite(t, "C19", "exploration",
-		"the real forwarder binary (built from the working tree without hooks) is started for every combination of carrier(6: --basic-auth, --api-basic-auth, --proxy userinfo, --credentials, data: URI of --tls-key-file, data: URI of --mitm-cakey-file, the scheme spelt data: / Data: / DATA: - a spelling the binary takes for a file name makes it refuse to start and demands nothing) x secret(6 passwords incl. ':', '@', '%41', non-ASCII with '/', space) x form(flag, FORWARDER_* environment, YAML config file) x log level(3) x log-http mode(errors, none, short-url, url) with at most D deviations (D=2 quick) or as the full product (thorough, inadmissible combinations skipped); successful exchanges (GET through the upstream proxy or with injected site credentials, CONNECT), /configz, then a 407 and an upstream failure; stdout+stderr after the successful exchanges and at exit (not for log-http=errors), the /configz body and the error responses are searched for the secret literally, URL-escaped and base64-encoded (alone and as user:secret); the redaction placeholder and the user names must be present; plus (error-responses, in-process proxy on the virtual clock) password(7, incl. one of 300 octets) x {--proxy userinfo, --credentials entry for the proxy} x {http upstream, socks5 upstream, PAC result SOCKS4 / SOCKS (unsupported) with a table entry for that proxy} x {GET, CONNECT through the upstream proxy} x 7 upstream faults (refused, black-holed, 403/no acceptable method, 407/credentials rejected, never answers [one virtual minute], closes, garbage) [full product]: the response sent to the client is searched in the same way; plus (request-log-lines, in-process) two proxy instances in one process with their own log-http modes - A in {errors, headers, body} serving 1-2 exchanges answered 503 with injected site credentials, then B in {short-url, url, none, errors} serving a successful one - x password(6) [full product]: B's request log lines are searched; non-trivial = the binary served the exchanges and was scanned")
+		"the real forwarder binary (built from the working tree without hooks) is started for every combination of carrier(6: --basic-auth, --api-basic-auth, --proxy userinfo, --credentials, data: URI of --tls-key-file, data: URI of --mitm-cakey-file, the scheme spelt data: / Data: / DATA: - a spelling the binary takes for a file name makes it refuse to start and demands nothing) x secret(6 passwords incl. ':', '@', '%41', non-ASCII with '/', space) x form(flag, FORWARDER_* environment, YAML config file) x log level(3) x log-http mode(errors, none, short-url, url) with at most D deviations (D=2 quick) or as the full product (thorough, inadmissible combinations skipped); successful exchanges (GET through the upstream proxy or with injected site credentials, CONNECT), /configz, then a 407 and an upstream failure; stdout+stderr after the successful exchanges and at exit (not for log-http=errors), the /configz body and the error responses are searched for the secret literally, URL-escaped and base64-encoded (alone and as user:secret); the redaction placeholder and the user names must be present; plus (error-responses, in-process proxy on the virtual clock) password(7, incl. one of 300 octets) x {--proxy userinfo, --credentials entry for the proxy} x {http upstream, socks5 upstream, PAC result SOCKS4 / SOCKS (unsupported) with a table entry for that proxy} x {GET, CONNECT through the upstream proxy} x 7 upstream faults (refused, black-holed, 403/no acceptable method, 407/credentials rejected, never answers [one virtual minute], closes, garbage) [full product]: the response sent to the client is searched in the same way; plus (refused-at-start-up) the binary started with a configuration that is refused as a whole - two --credentials entries for the same key (exact, host:*, *:*) or a well-formed secret next to an invalid other option - x password x {flag, environment} x log level [full product]: everything it prints before it exits is searched; plus (request-log-lines, in-process) two proxy instances in one process with their own log-http modes - A in {errors, headers, body} serving 1-2 exchanges answered 503 with injected site credentials, then B in {short-url, url, none, errors} serving a successful one - x password(6) [full product]: B's request log lines are searched; non-trivial = the binary served the exchanges and was scanned")
 	s.Assume = []string{"real time is used only as a liveness guard for the subprocess (no timing oracle)", "loopback TCP is available in the sandbox", "CLI usage errors that echo an inadmissible argument are outside the statement"}
 	s.Add(explore.Scenario{Name: "bounded", Tiers: []string{"quick"}, MaxDev: map[string]int{"quick": 2}, Run: func(x *explore.X) { scenario(x, bin) }})
 	s.Add(explore.Scenario{Name: "product", Tiers: []string{"thorough"}, Run: func(x *explore.X) { scenario(x, bin) }})
+	s.Add(explore.Scenario{Name: "refused-at-start-up", Run: func(x *explore.X) { refusedAtStartUp(x, bin) }})
 	s.Add(explore.Scenario{Name: "error-responses", Remote: true, Run: func(x *explore.X) { world.Run(t, x, func() { errorResponses(x) }) }})
 	s.Add(explore.Scenario{Name: "request-log-lines", Remote: true, Run: func(x *explore.X) { world.Run(t, x, func() { requestLogLines(x) }) }})
 	s.Main()
